@@ -954,7 +954,7 @@ class RemoterTls(Remoter):
                                 errno.EHOSTDOWN,
                                 errno.ETIMEDOUT,
                                 errno.ECONNREFUSED,
-                                ssl.SSLEOFError):
+                                ssl.SSL_ERROR_EOF):  # args[0] of ssl.SSLEOFError
                 self.cutoff = True  # this signals need to close/reopen connection
                 return bytes()  # data empty
             else:
@@ -993,7 +993,7 @@ class RemoterTls(Remoter):
                                 errno.EHOSTDOWN,
                                 errno.ETIMEDOUT,
                                 errno.ECONNREFUSED,
-                                ssl.SSLEOFError):
+                                ssl.SSL_ERROR_EOF):  # args[0] of ssl.SSLEOFError
                 self.cutoff = True  # this signals need to close/reopen connection
                 result = 0
             else:
